@@ -163,7 +163,7 @@ class _Gen:
             else:
                 self.emit(ind + 1, 'reserved "%s_OLD";' % name.upper())
         self.emit(ind, "}")
-        ent = (fqn, closed, vnames[0], nums[0])
+        ent = (fqn, closed, vnames[0], nums[0], vnames + (["%s_ALIAS" % name.upper()] if alias else []))
         self.f.enums.append(ent)
         return ent
 
@@ -192,7 +192,7 @@ class _Gen:
             es = self.all_enums()
             if es:
                 g, e = rng.choice(es)
-                return ("enum", e[0], e[1], e[2], g.syntax, e[3])
+                return ("enum", e[0], e[1], e[2], g.syntax, e[3], e[4])
             return ("scalar", rng.choice(SCALARS))
         if allow_msg:
             ms = self.all_msgs()
@@ -201,22 +201,47 @@ class _Gen:
                 return ("msg", m[0])
         return ("scalar", rng.choice(SCALARS))
 
+    INT_BOUNDS = {
+        "s32": [0, 1, -1, 42, 2147483647, -2147483648],
+        "s64": [0, 1, -1, 2147483648, -2147483649, 9223372036854775807, -9223372036854775808],
+        "u32": [0, 1, 42, 2147483648, 4294967295],
+        "u64": [0, 1, 4294967296, 9223372036854775807, 9223372036854775808, 18446744073709551615],
+    }
+
+    def int_literal(self, v):
+        """decimal, hexadecimal or octal spelling of v"""
+        r = self.rng.below(4)
+        sign, a = ("-" if v < 0 else ""), abs(v)
+        if r == 0:
+            return "%s0x%X" % (sign, a)
+        if r == 1:
+            return "%s0%o" % (sign, a) if a else "%s0" % sign
+        return "%s%d" % (sign, a)
+
     def default_for(self, t):
         rng = self.rng
         if t[0] == "enum":
-            return t[3]
+            return rng.choice(t[6]) if len(t) > 6 and rng.chance(1, 2) else t[3]
         s = t[1]
-        if s in ("double", "float"):
-            return rng.choice(["1.5", "-0.25", "inf", "-inf", "nan", "1e10", "0"])
+        if s == "double":
+            return rng.choice(["1.5", "-0.25", "inf", "-inf", "nan", "1e10", "0", "-0", "-0.0", "0.1", "1.7976931348623157e308",
+                               "4.9e-324", "16777217", "1e-7"])
+        if s == "float":
+            return rng.choice(["1.5", "-0.25", "inf", "-inf", "nan", "1e10", "0", "-0", "-0.0", "0.1", "3.4028235e38", "1e-45",
+                               "16777217", "1e-7"])
         if s == "bool":
             return rng.choice(["true", "false"])
         if s == "string":
-            return '"' + rng.choice(["", "abc", "x y", "\\n\\t", "\\303\\251", "q\\\"q"]) + '"'
+            return '"' + rng.choice(["", "abc", "x y", "\\n\\t", "\\303\\251", "q\\\"q", "\\x41\\101", "\\\\", "it\\'s"]) + '"'
         if s == "bytes":
-            return '"' + rng.choice(["", "\\x00\\xff", "abc", "\\001\\002"]) + '"'
-        if s.startswith("u") or s.startswith("fixed"):
-            return str(rng.choice([0, 1, 42, 4000000000]) if "64" in s or s in ("uint32", "fixed32") else rng.choice([0, 1, 42]))
-        return str(rng.choice([0, 1, -1, 42, -2147483648]))
+            return '"' + rng.choice(["", "\\x00\\xff", "abc", "\\001\\002", "\\377\\0"]) + '"'
+        if s in ("int32", "sint32", "sfixed32"):
+            return self.int_literal(rng.choice(self.INT_BOUNDS["s32"]))
+        if s in ("int64", "sint64", "sfixed64"):
+            return self.int_literal(rng.choice(self.INT_BOUNDS["s64"]))
+        if s in ("uint32", "fixed32"):
+            return self.int_literal(rng.choice(self.INT_BOUNDS["u32"]))
+        return self.int_literal(rng.choice(self.INT_BOUNDS["u64"]))
 
     def spell(self, fqn):
         """One of the valid spellings of a reference to fqn from the current scope: fully qualified with a
@@ -541,6 +566,26 @@ CORPUS_C04 = [
     'syntax = "proto3";\nimport "google/protobuf/descriptor.proto";\nextend google.protobuf.FieldOptions { optional int32 fo = 50001; }\nmessage M {\n  optional int32 a = 1;\n  repeated int32 b = 2 [packed = false];\n  repeated int32 c = 3;\n  int32 d = 4 [(fo) = 3];\n  oneof o { int32 e = 5; }\n  map<int32, M> f = 6;\n  E g = 7;\n  repeated E h = 8;\n}\nenum E { Z = 0; }\n',
     # proto2 groups, required, packed, defaults, extensions in a message scope
     'syntax = "proto2";\nmessage M {\n  required int32 a = 1;\n  optional group G = 2 { optional int32 x = 1; }\n  repeated group H = 3 { required M m = 1; }\n  repeated int32 p = 4 [packed = true];\n  repeated string q = 5;\n  optional bytes d = 6 [default = "\\x00\\xff"];\n  optional E e = 7 [default = B];\n  oneof o { int32 oi = 8; group OG = 9 { optional int32 y = 1; } }\n  extensions 100 to 200;\n  extend M { optional int32 ext1 = 100; repeated sint64 ext2 = 101 [packed = true]; optional M ext3 = 102; }\n}\nenum E { A = 1; B = 2; }\nextend M { repeated E ext4 = 103; }\n',
+    # boundary defaults of every scalar kind, in decimal, hexadecimal and octal spellings
+    'syntax = "proto2";\nenum E { option allow_alias = true; A = 1; B = 2; B2 = 2; }\nmessage D {\n'
+    '  optional int32 a1 = 1 [default = 2147483647];\n  optional int32 a2 = 2 [default = -2147483648];\n  optional sint32 a3 = 3 [default = -0x80000000];\n'
+    '  optional sfixed32 a4 = 4 [default = 017777777777];\n  optional int64 b1 = 5 [default = 9223372036854775807];\n'
+    '  optional int64 b2 = 6 [default = -9223372036854775808];\n  optional sint64 b3 = 7 [default = -0x8000000000000000];\n'
+    '  optional sfixed64 b4 = 8 [default = 0777777777777777777777];\n  optional uint32 c1 = 9 [default = 4294967295];\n'
+    '  optional fixed32 c2 = 10 [default = 0xFFFFFFFF];\n  optional uint64 d1 = 11 [default = 18446744073709551615];\n'
+    '  optional uint64 d2 = 12 [default = 9223372036854775808];\n  optional fixed64 d3 = 13 [default = 0xFFFFFFFFFFFFFFFF];\n'
+    '  optional fixed64 d4 = 14 [default = 01777777777777777777777];\n  optional uint64 d5 = 15 [default = 9223372036854775807];\n'
+    '  optional float f1 = 16 [default = -0];\n  optional float f2 = 17 [default = 0.1];\n  optional float f3 = 18 [default = 16777217];\n'
+    '  optional float f4 = 19 [default = inf];\n  optional float f5 = 20 [default = -inf];\n  optional float f6 = 21 [default = nan];\n'
+    '  optional float f7 = 22 [default = 3.4028235e38];\n  optional double g1 = 23 [default = -0.0];\n  optional double g2 = 24 [default = 0.1];\n'
+    '  optional double g3 = 25 [default = 1.7976931348623157e308];\n  optional double g4 = 26 [default = nan];\n  optional double g5 = 27 [default = 4.9e-324];\n'
+    '  optional bool h1 = 28 [default = true];\n  optional bool h2 = 29 [default = false];\n  optional E e1 = 30 [default = B2];\n  optional E e2 = 31;\n'
+    '  optional string s1 = 32 [default = "a\\n\\x41\\101\\"q\\\\"];\n  optional bytes y1 = 33 [default = "\\x00\\377z"];\n'
+    '  optional int32 n1 = 34;\n  optional uint64 n2 = 35;\n  optional string n3 = 36;\n  required uint64 r1 = 37 [default = 0x8000000000000000];\n'
+    '  oneof o { uint64 o1 = 38 [default = 18446744073709551615]; int32 o2 = 39 [default = -1]; }\n}\n',
+    # the same in an editions file
+    'edition = "2023";\nmessage D {\n  uint64 d1 = 1 [default = 18446744073709551615];\n  fixed64 d2 = 2 [default = 0x8000000000000000];\n'
+    '  sint64 d3 = 3 [default = -9223372036854775808];\n  float f = 4 [default = -0];\n  uint32 u = 5 [default = 4294967295];\n}\n',
     # an enum that does not start at zero as a map value: must be rejected (protoc and the Go runtime reject it)
     'syntax = "proto2";\nenum E { A = 1; }\nmessage M { map<int32, E> m = 1; }\n',
     # overrides at every legal level, four levels deep
